@@ -62,9 +62,16 @@ def load_check(cid):
 
 
 def all_checks():
+    """Checks that are claimed in MANIFEST.json (claimed.txt); others are work in progress."""
+    claimed = None
+    cp = os.path.join(VERIF, "claimed.txt")
+    if os.path.exists(cp):
+        claimed = set(open(cp).read().split())
     out = []
     for p in sorted(glob.glob(os.path.join(VERIF, "checks", "C*.json"))):
-        out.append(os.path.basename(p)[:-5])
+        cid = os.path.basename(p)[:-5]
+        if claimed is None or cid in claimed:
+            out.append(cid)
     return out
 
 
